@@ -208,33 +208,34 @@ func (r *Rediaron) BatchUpdate(ctx context.Context, data map[string]string) erro
 	return nil
 }
 
+// batchCreateScript sets all keys or none: it refuses when any of the keys already exists.
+var batchCreateScript = redis.NewScript(`
+for i = 1, #KEYS do
+	if redis.call("EXISTS", KEYS[i]) == 1 then
+		return 0
+	end
+end
+for i = 1, #KEYS do
+	redis.call("SET", KEYS[i], ARGV[i])
+end
+return 1
+`)
+
 // BatchCreate is wrapper to adapt etcd batch create
+// all keys are created atomically, if any of them exists nothing is written
 func (r *Rediaron) BatchCreate(ctx context.Context, data map[string]string) error {
-	create := func(pipe redis.Pipeliner) error {
-		for key, value := range data {
-			pipe.SetNX(ctx, key, value, 0)
-		}
-		return nil
+	keys, values := make([]string, 0, len(data)), make([]interface{}, 0, len(data))
+	for key, value := range data {
+		keys = append(keys, key)
+		values = append(values, value)
 	}
 
-	cmds, err := r.cli.TxPipelined(ctx, create)
+	created, err := batchCreateScript.Run(ctx, r.cli, keys, values...).Int()
 	if err != nil {
 		return err
 	}
-
-	for _, cmd := range cmds {
-		bc, ok := cmd.(*redis.BoolCmd)
-		if !ok {
-			return ErrBadCmdType
-		}
-
-		created, err := bc.Result()
-		if !created {
-			return ErrAlreadyExists
-		}
-		if err != nil {
-			return err
-		}
+	if created != 1 {
+		return ErrAlreadyExists
 	}
 	return nil
 }
